@@ -289,7 +289,7 @@ class JobResult:
 
 SAN_ENV = {
     'ASAN_OPTIONS': 'abort_on_error=1:detect_leaks=1:detect_stack_use_after_return=1:malloc_fill_byte=190:'
-                    'max_malloc_fill_size=1048576:allocator_may_return_null=1:handle_abort=0:symbolize=1',
+                    'max_malloc_fill_size=1048576:allocator_may_return_null=1:handle_abort=0:symbolize=1:new_delete_type_mismatch=0',
     'UBSAN_OPTIONS': 'print_stacktrace=1:halt_on_error=1',
     'LSAN_OPTIONS': 'exitcode=23',
     'ASAN_SYMBOLIZER_PATH': shutil.which('llvm-symbolizer-14') or shutil.which('llvm-symbolizer') or '',
@@ -371,8 +371,8 @@ def run_job(job, exe, rundir, idx, default_prop):
         # crash, sanitizer abort, deadlock verdict (exit 3) or library assert
         case = marks[-1]['case'] if marks else (viols[-1]['case'] if viols else None)
         crumb = marks[-1].get('crumb', '') if marks else ''
-        if rc == 3 and viols:
-            pass   # the deadlock record is already among viols
+        if rc in (3, 5) and viols:
+            pass   # deadlock verdict (3) or a monitor violation after which the harness refused to go on (5): already among viols
         else:
             sans = parse_sanitizer(errtxt)
             if sans:
